@@ -627,3 +627,67 @@ func callSel(call *ast.CallExpr, name string) (ast.Expr, bool) {
 	}
 	return sel.X, true
 }
+
+// returnExprs gives the result expressions of the KReturn event at index i with two normalisations: a
+// bare return is expanded to the named results, and a result that is a plain local (a named result or
+// a temporary) is replaced by the simple expression last assigned to it on the path in the same frame
+// (err = context.Canceled … return val, err reads as return val, context.Canceled). The frame to
+// evaluate each expression in is the return's frame.
+func returnExprs(p *core.Path, i int) []ast.Expr {
+	ev := p.Events[i]
+	res := ev.Results
+	if len(res) == 0 {
+		if ft := ev.Frame.FuncType(); ft != nil && ft.Results != nil {
+			for _, f := range ft.Results.List {
+				for _, n := range f.Names {
+					res = append(res, n)
+				}
+			}
+		}
+	}
+	out := make([]ast.Expr, len(res))
+	copy(out, res)
+	simple := func(e ast.Expr) bool {
+		ok := true
+		ast.Inspect(e, func(n ast.Node) bool {
+			switch x := n.(type) {
+			case *ast.FuncLit, *ast.BinaryExpr, *ast.IndexExpr, *ast.SliceExpr, *ast.TypeAssertExpr, *ast.CompositeLit:
+				ok = false
+			case *ast.CallExpr:
+				if len(x.Args) != 0 {
+					ok = false
+				}
+			}
+			return ok
+		})
+		return ok
+	}
+	for k, r := range out {
+		for depth := 0; depth < 3; depth++ {
+			v := identVar(r, ev.Frame)
+			if v == nil || v.IsField() {
+				break
+			}
+			var src ast.Expr
+			for j := i - 1; j >= 0; j-- {
+				b := p.Events[j]
+				if b.Kind == core.KIncDec && b.Frame == ev.Frame && identVar(b.Lhs, b.Frame) == v {
+					break
+				}
+				if b.Kind != core.KAssign || b.FieldInit || identVar(b.Lhs, b.Frame) != v {
+					continue
+				}
+				if b.Frame == ev.Frame && b.Rhs != nil && b.RhsIdx < 0 && (b.Tok == token.ASSIGN || b.Tok == token.DEFINE) && simple(b.Rhs) {
+					src = b.Rhs
+				}
+				break
+			}
+			if src == nil {
+				break
+			}
+			r = src
+			out[k] = src
+		}
+	}
+	return out
+}
